@@ -285,6 +285,10 @@ func (rc *repoCase) runRounds(pl *planInfo, form string, mi int, dir string, bef
 			p2.Planted[o] = true
 		}
 		p2.Expects[f2] = rc.ri.expect(pl.Args[f2], pl.Fx, snap)
+		p2.Fi, p2.FiKind, p2.FiVia, p2.GlobalCfg = pl.Fi, pl.FiKind, pl.FiVia, pl.GlobalCfg
+		if len(pl.Fi) > 0 {
+			p2.FiOutside = map[string]map[string]int{f2: rc.fiOutsideFor(pl.Fi, p2.Expects[f2])}
+		}
 		step := fmt.Sprintf("round %d: restore %s; damage [%s]", round, short(restored), strings.Join(dmg, " "))
 		p2.RoundLog = append(append([]string{}, log...), step)
 
